@@ -171,7 +171,11 @@ def segment_text(rng, version, name, ec=STD_EC, tok=None, fill=0.35, invalid_p=0
                  stats=None, max_fields=None):
     """One in-structure segment line (not MSH).  Returns text without trailing separator."""
     tok = tok or Tokens()
-    sref = T.segments(version)[name]
+    if name not in T.segments(version):      # Z segment: a few ST fields
+        vals = [valid_literal('ST', tok, rng) if rng.random() < 0.6 else '' for _ in range(rng.randrange(1, 5))]
+        while vals and vals[-1] == '':
+            vals.pop()
+        return ec['FIELD'].join([name] + vals)
     fields = []
     for fname, fref, (mn, mx), cls in T.seg_fields(version, name):
         if max_fields is not None and len(fields) >= max_fields:
